@@ -182,7 +182,7 @@ def stepCore (s : DS) (toks : List String) : DS × String :=
       | none => ({ s with funder := some { key, seeds := none } }, "ok")
       | some ss =>
         -- `Seeded<Mut<AccountInfo>, RawSeeds>` validated with `Seeds(..)`: seeds first, then `Mut`
-        match Account.Seeds.find s.env.H ss programId with
+        match Account.Seeds.find s.env.H (Account.Seeds.dropTrailingEmpty ss) programId with
         | none => (s, "panic")
         | some (addr, bump) =>
           if addr ≠ key then (s, showErr .addressMismatch)
